@@ -199,6 +199,21 @@ def read_idioms():
     uses = any(isinstance(n, ast.Name) and n.id == "iindex" for n in ast.walk(loops[0]))
     if not uses or not anywhere:
         raise ExtractionError("add_facility no longer derives interface ids from iindex")
+    # (2b) does connect_interface validate the two derived names before it creates the ServicePort?
+    conn = find_func(find_class(tree, "NetworkService"), "connect_interface")
+    ccalls = sorted([n for n in ast.walk(conn) if isinstance(n, ast.Call)], key=lambda n: (n.lineno, n.col_offset))
+    first_ctor = [i for i, n in enumerate(ccalls) if isinstance(n.func, ast.Name) and n.func.id == "Interface"]
+    if not first_ctor:
+        raise ExtractionError("connect_interface no longer constructs an Interface")
+    pre = [n.func.value.func.id for n in ccalls[:first_ctor[0]]
+           if isinstance(n.func, ast.Attribute) and n.func.attr == "set_name" and isinstance(n.func.value, ast.Call)
+           and isinstance(n.func.value.func, ast.Name)]
+    if pre == ["InterfaceSliver", "NetworkLinkSliver"]:
+        conn_pre = True
+    elif pre == []:
+        conn_pre = False
+    else:
+        raise ExtractionError("connect_interface: unrecognised name pre-validation %s" % pre)
     # (3) do the composites remove the partial construct?  try: ... except Exception: remove_network_node...; raise
     comp_rb = []
     for fname in ("add_facility", "add_switch"):
@@ -235,7 +250,7 @@ def read_idioms():
         raise ExtractionError("add_interface_sliver shape changed: %s" % ik)
     if_pre = "get_node_properties" in ik and ik.index("get_node_properties") < ik.index("add_node")
     return {"svcRollbackAll": catch_all, "facIndexReset": inside, "compositeRollback": comp_rb[0],
-            "linkPrecheck": link_pre, "ifaceParentPrecheck": if_pre,
+            "linkPrecheck": link_pre, "ifaceParentPrecheck": if_pre, "connectNamePrecheck": conn_pre,
             "spans": {"NetworkService.__init__": span_hash(src, init), "Topology.add_facility": span_hash(src2, fac)}}
 
 
@@ -329,6 +344,8 @@ def generate():
     body.append("def linkPrecheck : Bool := %s\n" % ("true" if idioms["linkPrecheck"] else "false"))
     body.append("/-- `add_interface_sliver` checks the parent exists before creating the ConnectionPoint -/")
     body.append("def ifaceParentPrecheck : Bool := %s\n" % ("true" if idioms["ifaceParentPrecheck"] else "false"))
+    body.append("/-- `connect_interface` validates the ServicePort name and the link name before creating the port -/")
+    body.append("def connectNamePrecheck : Bool := %s\n" % ("true" if idioms["connectNamePrecheck"] else "false"))
     changed = emit("Rules", "\n".join(body))
     missing = {k: [m for m in en[k] if m not in rules["types"][k]] for k in order}
     return {"changed": changed, "rules": len(rules["kinds"]), "classes": rules["classes"],
